@@ -123,7 +123,7 @@ def match_known(known, prop, harness, label, model, info):
         if pred:
             try:
                 env = {kk: (vv == "true" if vv in ("true", "false") else int(vv)) for kk, vv in model.items()}
-                if not eval(pred, {"__builtins__": {}}, {"m": env, "abs": abs, "min": min, "max": max}):
+                if not eval(pred, {"__builtins__": {}, "m": env, "abs": abs, "min": min, "max": max, "any": any, "all": all, "range": range, "len": len}):
                     continue
             except Exception:
                 continue
@@ -171,6 +171,12 @@ def main():
         spec = {"pkg": h["pkg"], "func": h["func"], "bounds": b}
         if "max_paths" in h:
             spec["max_paths"] = h["max_paths"]
+        if "max_violations" in h:
+            spec["max_violations"] = h["max_violations"]
+        ts = h.get("time_s")
+        if isinstance(ts, dict):
+            ts = ts.get(tier)
+        spec["time_s"] = ts or (600 if tier == "quick" else 3600)
         if h.get("map_order"):
             spec["map_order"] = True
         specs.append(spec)
@@ -200,9 +206,13 @@ def main():
     reached = {}
     bounds_used = {}
     distinct_inputs = set()
+    witness = {}
+    for hr, h in zip(res["results"], [hh for hh in pr["harnesses"] if not (args.only and args.only not in hh["func"]) and not (tier == "quick" and hh.get("thorough_only"))]):
+        if h.get("tag") == "known-finding-witness":
+            witness[id(hr)] = True
     for hr in res["results"]:
         name = hr["spec"]["func"]
-        bounds_used[name] = hr["spec"].get("bounds") or {}
+        bounds_used[name + ("#witness" if witness.get(id(hr)) else "")] = hr["spec"].get("bounds") or {}
         tot_obl += hr.get("obligations", 0)
         tot_dis += hr.get("discharged", 0)
         tot_paths += hr.get("paths", 0)
@@ -222,6 +232,8 @@ def main():
         for u in hr.get("unsupported") or []:
             inconclusive.append("%s: UNSUPPORTED %s" % (name, u))
         for u in (hr.get("inconclusive") or [])[:10]:
+            if u == "stopped after max violations" and witness.get(id(hr)):
+                continue
             inconclusive.append("%s: %s" % (name, u))
         for u in (hr.get("solver_errors") or [])[:3]:
             inconclusive.append("%s: solver error %s" % (name, u))
